@@ -17,7 +17,7 @@ for _p in sorted(glob.glob(os.path.join(ROOT, "props.d", "C*.json"))):
     PROPS[os.path.basename(_p)[:-5]] = json.load(open(_p))
 
 # commits in /repo that add the build-tag-guarded hooks
-HOOK_COMMITS = ["2cc76a6", "245af10", "5e27928"]
+HOOK_COMMITS = ["2cc76a6", "245af10", "5e27928", "0c064d2"]
 
 _WIP = "check not built yet in this round (work in progress; the property is applicable - see DESIGN.md section 6)"
 NOT_BUILT = {("C%02d" % i): _WIP for i in range(1, 21)}
